@@ -45,10 +45,10 @@ struct Setup {
     discard: bool,
 }
 
-fn any_setup() -> Setup {
+fn any_setup(h: usize) -> Setup {
     let (y, x0, x1): (usize, usize, usize) = (kani::any(), kani::any(), kani::any());
     // the in-bounds precondition delivered by the raster contracts: row inside, both ends <= width (either order)
-    kani::assume(y < H && x0 <= W && x1 <= W);
+    kani::assume(y < h && x0 <= W && x1 <= W);
     let (z, dz): (F, F) = (kani::any(), kani::any());
     kani::assume(z >= 0.001 && z <= 1.0 && dz >= -0.1 && dz <= 0.1);
     Setup { y, x0, x1, z, dz, discard: kani::any() }
@@ -63,28 +63,25 @@ fn scanline(s: &Setup) -> Scanline<()> {
     }
 }
 
-// @ob props=C02,C06,C07 tier=quick kind=B cfg=core-std timeout=1200
+// @ob props=C02,C06,C07 tier=quick kind=B cfg=core-std timeout=1800
 // @fn <Framebuf<Col,Dep> as Target>::rasterize ; Context::depth_test ; Scanline::fragments
-// @bound framebuffer 4x2 (every row, every span 0 <= x0,x1 <= 4 in either order, so every span length <= 4); complete in the depth values, buffer contents, all 4 depth predicates x color_write x depth_write x discarding/non-discarding shader
-// @clause per-pixel update of the colour+depth target: given a row inside the buffer and span ends <= width it never panics; cells outside [x0,x1) keep colour and depth bit for bit; inside, the fragment passes iff the configured predicate holds (none: always; Less: new reciprocal depth larger), colour is written iff pass, shader returned a colour and color_write, depth iff pass, shader returned a colour and depth_write; with test and writes on z' = max(z, z_f) and the colour is the fragment's iff z_f > z; reversed spans are empty; Throughput.i = span length, .o = colour writes; finite depths stay non-NaN
+// @bound one framebuffer row of 4 pixels (every span 0 <= x0,x1 <= 4 in either order, so every span length <= 4); complete in the depth values, buffer contents, all 4 depth predicates x color_write x depth_write x discarding/non-discarding shader
+// @clause per-pixel update of the colour+depth target: given span ends <= width it never panics; cells outside [x0,x1) keep colour and depth bit for bit; inside, the fragment passes iff the configured predicate holds (none: always; Less: new reciprocal depth larger), colour is written iff pass, shader returned a colour and color_write, depth iff pass, shader returned a colour and depth_write; with test and writes on z' = max(z, z_f) and the colour is the fragment's iff z_f > z; reversed spans are empty; Throughput.i = span length, .o = colour writes; finite depths stay non-NaN
+#[cfg(not(verif_skip_target_framebuf_update))]
 #[kani::proof]
 #[kani::unwind(6)]
 fn target_framebuf_update() {
-    let mut fb = Framebuf { color_buf: Buf2::<u32>::new((W as u32, H as u32)), depth_buf: Buf2::<F>::new((W as u32, H as u32)) };
-    let z_old: [[F; W]; H] = kani::any();
-    let c_old: [[u32; W]; H] = kani::any();
-    let mut j = 0;
-    while j < H {
-        let mut i = 0;
-        while i < W {
-            kani::assume(z_old[j][i].is_finite());
-            fb.depth_buf[[i as u32, j as u32]] = z_old[j][i];
-            fb.color_buf[[i as u32, j as u32]] = c_old[j][i];
-            i += 1;
-        }
-        j += 1;
+    let mut fb = Framebuf { color_buf: Buf2::<u32>::new((W as u32, 1)), depth_buf: Buf2::<F>::new((W as u32, 1)) };
+    let z_old: [F; W] = kani::any();
+    let c_old: [u32; W] = kani::any();
+    let mut i = 0;
+    while i < W {
+        kani::assume(z_old[i].is_finite());
+        fb.depth_buf[[i as u32, 0]] = z_old[i];
+        fb.color_buf[[i as u32, 0]] = c_old[i];
+        i += 1;
     }
-    let s = any_setup();
+    let s = any_setup(1);
     let ctx = any_ctx();
     let discard = s.discard;
     let fs = |_f: Frag<()>| -> Option<Color4> { if discard { None } else { Some(rgba(1, 2, 3, 4)) } };
@@ -95,47 +92,78 @@ fn target_framebuf_update() {
     assert!(io.i == len);
     let mut writes = 0usize;
     let mut zf = s.z;
+    let mut i = 0;
+    while i < W {
+        let (zi, ci) = (fb.depth_buf[[i as u32, 0]], fb.color_buf[[i as u32, 0]]);
+        let (zo, co) = (z_old[i], c_old[i]);
+        let inside = i >= s.x0 && i < s.x1;
+        if !inside {
+            assert!(zi.to_bits() == zo.to_bits() && ci == co);
+        } else {
+            let pass = spec_pass(ctx.depth_test, zf, zo) && !discard;
+            if pass && ctx.color_write {
+                assert!(ci == NEW_COL);
+                writes += 1;
+            } else {
+                assert!(ci == co);
+            }
+            if pass && ctx.depth_write {
+                assert!(zi.to_bits() == zf.to_bits());
+            } else {
+                assert!(zi.to_bits() == zo.to_bits());
+            }
+            if ctx.depth_test == Some(Ordering::Less) && ctx.depth_write && ctx.color_write && !discard {
+                // hidden-surface rule: the nearer (larger reciprocal depth) of old and new survives
+                assert!(zi == if zf > zo { zf } else { zo });
+                assert!((ci == NEW_COL) == (zf > zo) || co == NEW_COL);
+            }
+            assert!(!zi.is_nan());
+            zf += s.dz;
+        }
+        i += 1;
+    }
+    assert!(io.o == writes);
+}
+
+// @ob props=C02,C06 tier=quick kind=B cfg=core-std timeout=1800
+// @fn <Framebuf<Col,Dep> as Target>::rasterize
+// @bound framebuffer 4x2, every row and every span; default context (depth test Less, both writes on), non-discarding shader
+// @clause the scanline's row is the only row written: every cell of the other row keeps colour and depth, cells of the addressed row outside [x0,x1) too, and no row/span inside the buffer makes it panic
+#[cfg(not(verif_skip_target_framebuf_rows))]
+#[kani::proof]
+#[kani::unwind(6)]
+fn target_framebuf_rows() {
+    let mut fb = Framebuf { color_buf: Buf2::<u32>::new((W as u32, H as u32)), depth_buf: Buf2::<F>::new((W as u32, H as u32)) };
+    // old depth 0: every fragment (z >= 0.001) passes the default Less test
+    let s = any_setup(H);
+    let ctx = Context::default();
+    let fs = |_f: Frag<()>| -> Option<Color4> { Some(rgba(1, 2, 3, 4)) };
+    let io = fb.rasterize(scanline(&s), &fs, &ctx);
+    kani::cover!(s.y == 1 && s.x1 > s.x0 + 1);
+    let len = if s.x1 >= s.x0 { s.x1 - s.x0 } else { 0 };
+    assert!(io.i == len && io.o == len);
     let mut j = 0;
     while j < H {
         let mut i = 0;
         while i < W {
-            let (zi, ci) = (fb.depth_buf[[i as u32, j as u32]], fb.color_buf[[i as u32, j as u32]]);
-            let (zo, co) = (z_old[j][i], c_old[j][i]);
             let inside = j == s.y && i >= s.x0 && i < s.x1;
-            if !inside {
-                assert!(zi.to_bits() == zo.to_bits() && ci == co);
+            let (zi, ci) = (fb.depth_buf[[i as u32, j as u32]], fb.color_buf[[i as u32, j as u32]]);
+            if inside {
+                assert!(ci == NEW_COL && zi >= 0.001 - 0.5);
             } else {
-                let pass = spec_pass(ctx.depth_test, zf, zo) && !discard;
-                if pass && ctx.color_write {
-                    assert!(ci == NEW_COL);
-                    writes += 1;
-                } else {
-                    assert!(ci == co);
-                }
-                if pass && ctx.depth_write {
-                    assert!(zi.to_bits() == zf.to_bits());
-                } else {
-                    assert!(zi.to_bits() == zo.to_bits());
-                }
-                if ctx.depth_test == Some(Ordering::Less) && ctx.depth_write && ctx.color_write && !discard {
-                    // hidden-surface rule: the nearer (larger reciprocal depth) of old and new survives
-                    assert!(zi == if zf > zo { zf } else { zo });
-                    assert!((ci == NEW_COL) == (zf > zo) || co == NEW_COL);
-                }
-                assert!(!zi.is_nan());
-                zf += s.dz;
+                assert!(ci == 0 && zi == 0.0);
             }
             i += 1;
         }
         j += 1;
     }
-    assert!(io.o == writes);
 }
 
-// @ob props=C02,C07 tier=quick kind=B cfg=core-std timeout=1200
+// @ob props=C02,C07 tier=quick kind=B cfg=core-std timeout=1800
 // @fn <Buf as Target>::rasterize ; Scanline::fragments
 // @bound colour buffer 4x2 (every row, every span 0 <= x0,x1 <= 4 in either order); complete in the contents and flags
-// @clause per-pixel update of the colour-only target: never panics for in-bounds rows/spans; cells outside [x0,x1) unchanged; inside, colour written iff the shader returned a colour and color_write (no depth test); Throughput.i = span length, .o = colour writes
+// @clause per-pixel update of the colour-only target: never panics for in-bounds rows/spans; cells outside [x0,x1) of the row unchanged; inside, colour written iff the shader returned a colour and color_write (no depth test); Throughput.i = span length, .o = colour writes
+#[cfg(not(verif_skip_target_colorbuf_update))]
 #[kani::proof]
 #[kani::unwind(6)]
 fn target_colorbuf_update() {
@@ -150,7 +178,7 @@ fn target_colorbuf_update() {
         }
         j += 1;
     }
-    let s = any_setup();
+    let s = any_setup(H);
     let ctx = any_ctx();
     let discard = s.discard;
     let fs = |_f: Frag<()>| -> Option<Color4> { if discard { None } else { Some(rgba(1, 2, 3, 4)) } };
@@ -181,6 +209,7 @@ fn target_colorbuf_update() {
 // @ob props=C06,C07 tier=quick kind=P cfg=core-std timeout=300
 // @fn Context::depth_test
 // @clause depth predicate for all f32 pairs and all four settings: None passes every fragment; Some(Less) passes iff curr < new (a larger reciprocal depth is nearer); Equal/Greater likewise; NaN never passes a configured test
+#[cfg(not(verif_skip_target_depth_test_spec))]
 #[kani::proof]
 fn target_depth_test_spec() {
     let ctx = any_ctx();
